@@ -35,6 +35,7 @@ type Case struct {
 	CliDirect bool       `json:"cli_direct,omitempty"`
 	Unix      bool       `json:"unix,omitempty"` // server mode: real unix sockets instead of frame links
 	Poll      bool       `json:"poll,omitempty"` // server mode over unix sockets: poll-mode server
+	Hold      int        `json:"hold,omitempty"` // ... idle connections opened first and kept (more than 16: the tested ones share poll workers)
 	Conns     []ConnSpec `json:"conns"`
 }
 
@@ -85,6 +86,9 @@ func gen(t *rapid.T) Case {
 	if rapid.IntRange(0, 2).Draw(t, "unix") == 0 {
 		c.Unix = true
 		c.Poll = rapid.Bool().Draw(t, "poll")
+		if c.Poll && rapid.Bool().Draw(t, "hold") {
+			c.Hold = rapid.IntRange(16, 22).Draw(t, "held")
+		}
 	}
 	nc := rapid.IntRange(1, 4).Draw(t, "conns")
 	for i := 0; i < nc; i++ {
@@ -171,7 +175,7 @@ func valid(c Case) bool {
 			}
 		}
 	}
-	if c.Poll && !c.Unix || (c.Unix && c.Mode != "server") {
+	if c.Poll && !c.Unix || (c.Unix && c.Mode != "server") || c.Hold < 0 || c.Hold > 64 || (c.Hold > 0 && !c.Poll) {
 		return false
 	}
 	return c.Mode == "server" || (c.Mode == "client" && len(c.Conns) == 1)
@@ -218,6 +222,13 @@ func runServer(c Case) kit.Outcome {
 				}
 			}
 		}()
+		for h := 0; h < c.Hold; h++ {
+			hc, err := kit.DialRaw("unix", sess.Addr)
+			if err != nil {
+				return kit.Undecided("dial: %v", err)
+			}
+			defer hc.Close()
+		}
 		for i, spec := range c.Conns {
 			rc, err := kit.DialRaw("unix", sess.Addr)
 			if err != nil {
@@ -369,6 +380,9 @@ func runServer(c Case) kit.Outcome {
 	}
 	if c.Poll {
 		out.Classes = append(out.Classes, "poll")
+	}
+	if c.Hold >= 16 {
+		out.Classes = append(out.Classes, "poll-shared-workers")
 	}
 	if (total >= 3 && failingNotLast) || maxBatch > 1 || len(conns) > 1 {
 		out.Nontrivial = true
